@@ -448,8 +448,13 @@ class _PartialEvalInstance(DefaultVisitor):
                 return
 
     def _visit_while(self, stmt: WhileStmt, ctx: Context | None):
-        self._visit_expr(stmt.cond, ctx)
-        self._loop_fixpoint(stmt, lambda: self._visit_block(stmt.body, ctx))
+        # the condition reads the loop's phis: it is part of what the
+        # fixpoint revisits (visited once, up front, it kept the value a phi
+        # had on an earlier pass of an enclosing loop)
+        def run():
+            self._visit_expr(stmt.cond, ctx)
+            self._visit_block(stmt.body, ctx)
+        self._loop_fixpoint(stmt, run)
 
     def _visit_for(self, stmt: ForStmt, ctx: Context | None):
         self._visit_expr(stmt.iterable, ctx)
